@@ -197,6 +197,10 @@ pub struct Gen {
     /// property being judged (C02 runs never use values built through unsafe constructors)
     prop: u32,
     step0: bool,
+    /// remaining operations of the blind burst in progress
+    blind_left: usize,
+    /// percent chance per owner step to begin a blind burst
+    blind_pct: u32,
     /// the previous owner step was a pop or a special move: a good place for a fault
     hot: bool,
 }
@@ -210,7 +214,7 @@ fn uci_text(m: &RMove) -> String {
 
 impl Gen {
     pub fn new(sw: Swarm, rng: Rng) -> Gen {
-        Gen { sw, rng, hot: false, sparse: None, prop: 0, step0: true }
+        Gen { sw, rng, hot: false, sparse: None, prop: 0, step0: true, blind_left: 0, blind_pct: 0 }
     }
 
     fn choose_legal(&mut self, info: &Info, w: &World) -> Option<RMove> {
@@ -897,10 +901,35 @@ impl Gen {
     pub fn next_op(&mut self, w: &mut World, prop: u32) -> Op {
         self.prop = prop;
         if self.step0 {
+            self.blind_pct = [0u32, 0, 0, 4, 10][self.rng.below(5)];
             self.step0 = false;
             if self.rng.chance(30) {
                 return Op::Construct(self.rng.below(5) as u8);
             }
+        }
+        // blind bursts: a few pushes / pops / outcome changes that nothing reads back
+        if w.blind {
+            if self.blind_left == 0 {
+                return Op::Blind(false);
+            }
+            self.blind_left -= 1;
+            let finished = w.rc.outcome.is_some();
+            return match self.rng.below(10) {
+                0..=5 if !finished => self.gen_push(w),
+                6 | 7 => Op::Pop,
+                8 if finished => Op::ClearOutcome,
+                _ => {
+                    if finished {
+                        Op::ResetOutcome(None)
+                    } else {
+                        Op::SetOutcome(OutcomeSpec::Draw(self.rng.below(8) as u8))
+                    }
+                }
+            };
+        }
+        if self.blind_pct > 0 && self.rng.chance(self.blind_pct) {
+            self.blind_left = 2 + self.rng.below(11);
+            return Op::Blind(true);
         }
         if self.sparse.is_none() {
             let sparse = prop == C14 && self.rng.chance(35);
